@@ -12,23 +12,22 @@ variable {W : Type}
 
 /-! ### the blocking call -/
 
-theorem socketWait_spec (c : Conn W) :
-    (c.loc.eli = .cleanup ∧ socketWait c = none) ∨
-    (∃ b, socketWait c = some b ∧ b.onItc = false ∧
+theorem socketWait_spec (wb : Bool) (c : Conn W) :
+    (c.loc.eli = .cleanup ∧ socketWait wb c = none) ∨
+    (∃ b, socketWait wb c = some b ∧ b.onItc = false ∧
       (c.loc.eli.hasProcess = true → b.wait = .zero) ∧
-      (c.loc.eli.hasProcess = false → c.tmo = 0 → b.wait = .forever) ∧
       (b.wait = .forever → c.loc.eli.hasProcess = false) ∧ b.wait ≠ .bounded250 ∧
       (c.loc.eli.hasRead = true → b.r = true) ∧ (c.loc.eli.isWrite = true → b.w = true)) := by
   have hw : ∀ e : Eli, ∀ w : TWait,
-      w = (if e.hasProcess then TWait.zero else if c.tmo > 0 then TWait.deadline else TWait.forever) →
-      (e.hasProcess = true → w = .zero) ∧ (e.hasProcess = false → c.tmo = 0 → w = .forever) ∧
-      (w = .forever → e.hasProcess = false) ∧ w ≠ .bounded250 := by
+      w = (if e.hasProcess then TWait.zero else if c.tmo > 0 then TWait.deadline
+           else if wb && e.isWrite then TWait.bounded1000 else TWait.forever) →
+      (e.hasProcess = true → w = .zero) ∧ (w = .forever → e.hasProcess = false) ∧ w ≠ .bounded250 := by
     intro e w hw
     subst hw
     cases hp : e.hasProcess
     · by_cases ht : c.tmo > 0
-      · simp [ht]; omega
       · simp [ht]
+      · cases hq : (wb && e.isWrite) <;> simp [ht, hq]
     · simp
   unfold socketWait
   cases h : c.loc.eli
@@ -39,7 +38,7 @@ theorem socketWait_spec (c : Conn W) :
     simp only []
     have := hw c.loc.eli _ (by rw [h])
     rw [h] at this
-    refine ⟨this.1, this.2.1, this.2.2.1, this.2.2.2, ?_, ?_⟩ <;> intro hp <;> first | trivial | exact absurd hp (by decide)
+    refine ⟨this.1, this.2.1, this.2.2, ?_, ?_⟩ <;> intro hp <;> first | trivial | exact absurd hp (by decide)
 
 /-! ### the invariant between iterations -/
 
@@ -59,7 +58,7 @@ variable {ops : Ops W} {needs : Local W → Bool}
 /-- the state and the blocking call the thread reaches from the loop head (loop with the re-check) -/
 structure HeadOK (needs : Local W → Bool) (t1 : TState W) (b : TBlock) : Prop where
   susp : t1.wh = .susp → b = suspendedWait ∧ t1.wasSuspended = true
-  sock : t1.wh ≠ .susp → socketWait t1.c = some b ∧ t1.wasSuspended = false
+  sock : t1.wh ≠ .susp → socketWait t1.selBounded t1.c = some b ∧ t1.wasSuspended = false
   sync : t1.wh = .active → Sync needs t1.c
 
 theorem tpcExit_none (ops : Ops W) (t : TState W) : (tpcExit ops t).2 = none := by
@@ -86,7 +85,7 @@ theorem tpcHead_ok (L : Laws ops needs) (early : Bool) {t : TState W} (h : TInv 
   cases hws : t.wasSuspended
   · -- straight to the socket
     simp only [hws, Bool.false_eq_true, if_false] at hb
-    cases hb' : socketWait t.c with
+    cases hb' : socketWait t.selBounded t.c with
     | none => rw [hb'] at hb; cases hb
     | some b' =>
       rw [hb'] at hb; cases hb
@@ -102,7 +101,7 @@ theorem tpcHead_ok (L : Laws ops needs) (early : Bool) {t : TState W} (h : TInv 
         cases hb
         exact ⟨fun _ => ⟨rfl, rfl⟩, fun hn => absurd rfl hn, fun ha => by cases ha⟩
     · simp only [hr, decide_false, Bool.and_false, Bool.false_eq_true, if_false] at hb
-      cases hb' : socketWait s.c with
+      cases hb' : socketWait t.selBounded s.c with
       | none => rw [hb'] at hb; cases hb
       | some b' =>
         rw [hb'] at hb; cases hb
@@ -186,7 +185,7 @@ theorem tpc_nlw (L : Laws ops needs) (early : Bool) {t : TState W} (h : TInv nee
       (t1.c.loc.eli.hasRead = true → b.r = true) ∧ (t1.c.loc.eli.isWrite = true → b.w = true) := by
     intro hn
     have hsw := (H.sock hn).1
-    rcases socketWait_spec t1.c with ⟨_, e⟩ | ⟨b', e, h1, h2, _, h4, _, h6, h7⟩
+    rcases socketWait_spec t1.selBounded t1.c with ⟨_, e⟩ | ⟨b', e, h1, h2, h4, _, h6, h7⟩
     · rw [e] at hsw; cases hsw
     · rw [e] at hsw; cases hsw
       exact ⟨h1, h2, h4, h6, h7⟩
@@ -245,7 +244,7 @@ theorem tpc_progress_iter (L : Laws ops needs) (PL : ProgLaws ops awaiting repli
     trivial
   rw [if_neg hc, if_neg (by rw [hw]; decide)]
   simp only [hs, Bool.false_eq_true, if_false]
-  rcases socketWait_spec t.c with ⟨e, _⟩ | ⟨b, e, hb, _⟩
+  rcases socketWait_spec t.selBounded t.c with ⟨e, _⟩ | ⟨b, e, hb, _⟩
   · rcases he with h | h <;> rw [h] at e <;> cases e
   · rw [e]
     show _ ∨ _ ∨ _
@@ -340,6 +339,61 @@ theorem tpc_progress_run (L : Laws ops needs) (PL : ProgLaws ops awaiting replie
             exact Or.inl hact
 
 end
+
+end Mhd.Loop
+
+namespace Mhd.Loop
+open Mhd.Gen.Loop
+variable {W : Type}
+
+/-! ### the daemon thread's cycle -/
+
+/-- a cycle that calls resume_suspended_connections resumes every connection marked by MHD_resume_connection -/
+theorem tpcDaemonCycle_resumes {ths : List (TThread W)} {th : TThread W} (hm : th ∈ ths) (hr : th.resuming = true) :
+    ({ t := tpcResumed th.t, resuming := false } : TThread W) ∈ tpcDaemonCycleWith true ths := by
+  unfold tpcDaemonCycleWith
+  simp only [if_true]
+  exact List.mem_map.mpr ⟨th, hm, by simp [hr]⟩
+
+theorem tpcResumed_active {t : TState W} (h : t.wh = .susp) : (tpcResumed t).wh = .active := by
+  unfold tpcResumed; rw [if_pos h]
+
+/-- a suspended connection's thread only re-checks: an iteration leaves it where it is -/
+theorem tpcIter_suspended (ops : Ops W) (recheck early : Bool) {t : TState W} (hs : t.wh = .susp) (hc : t.c.loc.st ≠ stClosed)
+    (rr wr er : Bool) : tpcIterWith ops recheck early t rr wr er = some { t with wasSuspended := true } := by
+  unfold tpcIterWith tpcHeadWith
+  rw [if_neg hc, if_pos hs]
+  rfl
+
+/-- one round of a daemon whose thread does not call resume_suspended_connections: the connection's thread runs an
+    iteration (its bounded wait expired), the daemon thread runs a cycle -/
+def tpcDeafRound (ops : Ops W) (recheck early : Bool) (th : TThread W) : TThread W :=
+  match tpcIterWith ops recheck early th.t false false false with
+  | some t' => (tpcDaemonCycleWith false [{ th with t := t' }]).headD th
+  | none => th
+
+def tpcDeafRounds (ops : Ops W) (recheck early : Bool) : Nat → TThread W → TThread W
+  | 0, th => th
+  | n + 1, th => tpcDeafRounds ops recheck early n (tpcDeafRound ops recheck early th)
+
+/-- … so with a daemon thread that never calls resume_suspended_connections the connection stays suspended for ever,
+    whatever MHD_resume_connection marked -/
+theorem tpc_never_resumed (ops : Ops W) (recheck early : Bool) :
+    ∀ (n : Nat) (th : TThread W), th.t.wh = .susp → th.t.c.loc.st ≠ stClosed →
+      (tpcDeafRounds ops recheck early n th).t.wh = .susp ∧ (tpcDeafRounds ops recheck early n th).resuming = th.resuming := by
+  intro n
+  induction n with
+  | zero => intro th hs _; exact ⟨hs, rfl⟩
+  | succ k ih =>
+    intro th hs hc
+    have e : tpcDeafRound ops recheck early th = { th with t := { th.t with wasSuspended := true } } := by
+      unfold tpcDeafRound
+      rw [tpcIter_suspended ops recheck early hs hc]
+      rfl
+    show (tpcDeafRounds ops recheck early k (tpcDeafRound ops recheck early th)).t.wh = .susp ∧
+      (tpcDeafRounds ops recheck early k (tpcDeafRound ops recheck early th)).resuming = th.resuming
+    rw [e]
+    exact ih { th with t := { th.t with wasSuspended := true } } hs hc
 
 end Mhd.Loop
 
